@@ -5,6 +5,7 @@ Theorems about the RGA model (list.go / ordered.go); document arrays use the sam
 -/
 import Orda.Proofs.Rga
 import Orda.Proofs.RgaFull
+import Orda.Proofs.DocArr
 namespace Orda.Props.C04
 open Orda
 
@@ -79,5 +80,11 @@ theorem mixed_history_same_order (ops ops' : List LOp) (hp : ops.Perm ops') (hc 
 theorem deleted_iff_delete_received (ops : List LOp) (hc : LCausal ops) (n : RNode)
     (hn : n ∈ (Rga.empty.applyAllL ops).nodes) :
     n.v = none ↔ ∃ tgs ts, LOp.del tgs ts ∈ ops ∧ n.o ∈ tgs := rga_tombstone_iff ops hc n hn
+
+/-- document arrays: deletes never change any array's slot order, updates only replace children -/
+theorem doc_array_delete_keeps_order (d : Doc) (p : Ts) (tgs : List Ts) (t q : Ts) :
+    DA.slotIds (DA.applyA d (.del p tgs t)) q = DA.slotIds d q := DA.del_slotIds d p tgs t q
+theorem doc_array_update_keeps_order (d : Doc) (p t : Ts) (tgs : List Ts) (vs : List JVal) (q : Ts) (hq : q.key ≠ t.key) :
+    DA.slotIds (DA.applyA d (.upd p t tgs vs)) q = DA.slotIds d q := DA.upd_slotIds d p t tgs vs q hq
 
 end Orda.Props.C04
